@@ -196,6 +196,12 @@ func (e *Env) Exec(line string) string {
 		return ""
 	}
 	u := func(s string) uint64 { v, _ := strconv.ParseUint(s, 10, 64); return v }
+	if out, ok := e.mxEchoOut(line); ok {
+		return out
+	}
+	if w[0] == "mxq" {
+		return "bad-op" // a question about a connector call that did not just happen
+	}
 	if e.dead && w[0] != "reset" {
 		// a block function of this instance never returned: the goroutine it runs in still holds the locks of the
 		// stores, so nothing may touch them any more (the history ends here; the monitor has reported it)
@@ -207,6 +213,10 @@ func (e *Env) Exec(line string) string {
 	case "world":
 		if len(w) > 1 && strings.HasPrefix(w[1], "x:") && e.inited && !e.dead {
 			e.evmExec(w[1])
+			return "ok"
+		}
+		if len(w) > 1 && strings.HasPrefix(w[1], "mx:") && e.inited && !e.dead {
+			e.mxExec(w[1])
 			return "ok"
 		}
 		if len(w) > 1 && strings.HasPrefix(w[1], "dryrun:tokens:") && e.inited && !e.dead {
